@@ -53,13 +53,13 @@ PROPS['C12'] = dict(
     not_decided=['each selected test started exactly once per repetition', 'no non-parallel test overlaps another test', 'never more running tests than jobs', 'TIMEOUT when the limit passes and the test is then terminated', 'printed totals / testlog.json text'],
 )
 PROPS['C07'] = dict(
-    modules=['specs.options', 'contracts.options', 'lemmas.options'],
+    modules=['specs.options', 'contracts.options', 'lemmas.options', 'contracts.setoption'],
     bounded=['bounded.options'],
     level='proof',
     design_ref='DESIGN.md §4 C07, §0.6',
-    technique='deductive: VCs from the real AST of the validate_value family, set_value, get_option_and_value_for, the two precedence merges initialize_from_top_level_project_call / initialize_from_subproject_call (dict iteration with a ghost visited-set invariant per loop, option keys opaque, statement for an arbitrary key), prefix_split_options / first_handle_prefix / hard_reset_from_prefix / reset_prefixed_options + sidecar contracts; set_option incl. buildtype expansion and the end-to-end resolution through the real OptionStore bounded-exhaustive over all 2^8 source subsets',
+    technique='deductive: VCs from the real AST of the validate_value family, set_value, get_option_and_value_for, the two precedence merges initialize_from_top_level_project_call / initialize_from_subproject_call (dict iteration with a ghost visited-set invariant per loop, option keys opaque, statement for an arbitrary key), prefix_split_options / first_handle_prefix / hard_reset_from_prefix / reset_prefixed_options + sidecar contracts; OptionStore.set_option as a whole (general keys and the buildtype expansion) + sidecar contracts; the end-to-end resolution through the real OptionStore bounded-exhaustive over all 2^8 source subsets',
     level_text='Validity: every validate_value (string, boolean, integer with range, combo/feature, string array with choices) is proved to reject exactly the values violating type/choices/range and to return a valid value; set_value stores the validated value. Resolution: augment > yielding parent > own value is proved on the real get_option_and_value_for. Precedence: for source dictionaries of ANY size and an arbitrary key, the value the top-level merge hands to the store is the one from the command line, else the machine file, else project(default_options), else what the store held; the value the subproject merge hands to the store follows the documented order (command-line subp:opt, machine-file subp:opt, subproject(default_options:), parent subp:opt, [a global command-line/machine-file opt keeps the top-level value], the subproject\'s own default_options). Prefix: sysconfdir/localstatedir/sharedstatedir are reset from the table entry of the SANITIZED prefix, else their default; the prefix entry is split off and every other entry handed on unchanged. The end-to-end precedence is also checked exhaustively over all source subsets through the real OptionStore (bounded stand-in).',
-    level_note='Assumed: set_user_option as a MODEL (the store then holds the given value under the given key; only declared dependents change; the global-key/project-option aliasing inside it is not modelled), OptionKey.evolve sets the subproject and is injective on global keys (checked bounded on the real class), iteration over a dict visits every key once in arbitrary order, listify_array_value, key normalisation, option lookup, sanitize_prefix as an abstract normal form (trusted contracts); int() of a string through the abstract py_int_ok/py_int_val; mlog calls are effects. NOT proved (bounded only): set_option incl. buildtype dependents, validation inside set_user_option, the composition merge -> store -> get_value_for.',
+    level_note='Assumed: set_user_option as a MODEL (the store then holds the given value under the given key; only declared dependents change; the global-key/project-option aliasing inside it is not modelled), OptionKey.evolve sets the subproject and is injective on global keys (checked bounded on the real class), iteration over a dict visits every key once in arbitrary order, listify_array_value, key normalisation, option lookup, sanitize_prefix as an abstract normal form (trusted contracts); int() of a string through the abstract py_int_ok/py_int_val; mlog calls are effects. set_option is proved as a whole for keys other than prefix (stored value = validated value; buildtype expansion) with resolve_option / validate_value / set_value as effects. NOT proved (bounded only): the prefix branch of set_option, deprecated-option mapping, the key aliasing of set_user_option, the composition merge -> store -> get_value_for.',
     not_decided=['machine-file parsing, optinterpreter and Environment plumbing', 'cross-source interaction of buildtype with explicit debug/optimization (not stated)'],
 )
 PROPS['C14'] = dict(
@@ -140,12 +140,12 @@ PROPS['C10'] = dict(
     not_decided=['full cross product of system dependency x constraint x fallback kind x wrap_mode x force_fallback_for x required x allow_fallback', 'repeated lookups return the same dependency', 'nothing fetched under nodownload (only the local cases are exercised, bounded)'],
 )
 PROPS['C08'] = dict(
-    modules=['contracts.persist'],
+    modules=['contracts.persist', 'contracts.setoption'],
     bounded=['bounded.persist', 'bounded.lifecycle'],
     level='other',
     design_ref='DESIGN.md §4 C08',
-    technique='deductive (kernel): region contracts on the storing step of OptionStore.set_option and the -U step of set_from_configure_command (opaque keys/options, override table as a symbolic map with a frame clause); contract on mconf.run_impl (ghost effect trace: an accepted -D/-U is recorded in cmd_line.txt unconditionally and after validation, a rejected one persists nothing); -D/-U sequences and option-file edits through the real OptionStore bounded-exhaustive against a reference model; real setup/configure/--reconfigure/--wipe command sequences on real build directories (in process, --backend=none) bounded against a reference model',
-    level_text='Proved for all keys, values and override tables: a per-subproject -D override always stores exactly the value given (whatever the inherited value) and touches no other key; an option given directly stores the validated value and stops yielding; -U of an override removes exactly that override and marks the store dirty, -U of an unknown key is an error. `meson configure` records every accepted -D/-U in cmd_line.txt (whether or not a stored value changed) after the options were validated, saves coredata iff something changed, and persists nothing when the options are rejected. Lifecycle behaviour over command sequences and option-file edits is checked bounded on real build directories.',
+    technique='deductive (kernel): region contracts on the storing step of OptionStore.set_option and the -U step of set_from_configure_command (opaque keys/options, override table as a symbolic map with a frame clause); whole-function contracts on OptionStore.set_option (general keys; buildtype expansion) with validation/lookup/storing as effects of the ghost trace; contract on mconf.run_impl (ghost effect trace: an accepted -D/-U is recorded in cmd_line.txt unconditionally and after validation, a rejected one persists nothing); -D/-U sequences and option-file edits through the real OptionStore bounded-exhaustive against a reference model; real setup/configure/--reconfigure/--wipe command sequences on real build directories (in process, --backend=none) bounded against a reference model',
+    level_text='Proved for all keys, values and override tables: a per-subproject -D override always stores exactly the value given (whatever the inherited value) and touches no other key; an option given directly stores the validated value and stops yielding; -U of an override removes exactly that override and marks the store dirty, -U of an unknown key is an error. set_option as a whole: the value stored is the one validate_value returned, an override is stored under exactly the given key and touches no other, the returned changed flag is true exactly when the stored state differs (a NEW override counts), buildtype sets debug/optimization of the same subproject from DEFAULT_DEPENDENTS iff it changed and is not custom. `meson configure` records every accepted -D/-U in cmd_line.txt (whether or not a stored value changed) after the options were validated, saves coredata iff something changed, and persists nothing when the options are rejected. Lifecycle behaviour over command sequences and option-file edits is checked bounded on real build directories.',
     level_note='Assumed: key normalisation and option lookup; opaque option objects (set_value as an effect). Region contracts verify one statement of set_option / set_from_configure_command. Conf / coredata / introspection writers / update_cmd_line_file are effects of the ghost trace in run_impl. NOT decided deductively (bounded only): pickling to disk, --wipe re-derivation from recorded command lines, rollback when setup --reconfigure fails, multi-process histories.',
     explanation='kernel: in-memory -D/-U transitions proved; persistence across processes and failure rollback not decided',
     not_decided=['setup --wipe re-derives the configuration from the recorded command lines (bounded only)', 'a failing setup --reconfigure leaves every persisted value as it was (bounded only)', 'coredata pickling'],
